@@ -175,11 +175,12 @@ def lognormal_is_exp_of_gaussian(c, n=2):
     c.eq('draw_is_exp_of_affine_gaussian_draw', np.log(np.asarray(s)[:, 0]), m + np.sqrt(v) * e[:, 0], tol=1e-6)
 
 
-def gmrf_cov(c, bc, order, N=5):
+def gmrf_cov(c, bc, order, N=5, two_d=False):
     """native, closed: B (from unit noise vectors) satisfies B B^T == pseudo-inverse of prec * P (on the range of P)"""
     import numpy.random as nr
     prec = 2.0
-    g = GMRF(np.zeros(N), prec, bc_type=bc, order=order, geometry=cuqi.geometry.Continuous1D(N))
+    if two_d: side = N; N = side * side
+    g = GMRF(np.zeros(N), prec, bc_type=bc, order=order, geometry=cuqi.geometry.Image2D((side, side)) if two_d else cuqi.geometry.Continuous1D(N))
     P = prec * g._prec_op.get_matrix().toarray()
     saved = (nr.randn, nr.standard_normal)
     cols = []
@@ -231,6 +232,8 @@ def jobs(tier):
         J.append(Job(f'{fam}.sample:wrapping_and_refusal', lambda c, f=fam: wrapping(c, f), 'Pbox', [f'{D}._distribution:Distribution.sample']))
     J.append(Job('Lognormal._sample:exp_of_gaussian', lognormal_is_exp_of_gaussian, 'Pbox', [f'{D}._lognormal:Lognormal._sample']))
     for bc in ('zero', 'neumann', 'periodic'):
-        for order in (1, 2):
+        for order in (0, 1, 2):
             J.append(Job(f'GMRF._sample:covariance:{bc}:order={order}', lambda c, bc=bc, o=order: gmrf_cov(c, bc, o), 'B', [f'{D}._gmrf:GMRF._sample'], nnum=1))
+            if bc == 'periodic': continue          # 2D periodic sampling is refused by the library (NotImplementedError): nothing to specify
+            J.append(Job(f'GMRF._sample:covariance2D:{bc}:order={order}', lambda c, bc=bc, o=order: gmrf_cov(c, bc, o, 3 if o < 2 else 4, True), 'B', [f'{D}._gmrf:GMRF._sample'], nnum=1))
     return J
